@@ -305,10 +305,11 @@ def run(model: Model, rep: Report, tier: str) -> None:
         f = method(op)
         paths = return_paths(ev.run(f, {f.params[1]: S}, self_term=G))
         want = ("union", S, ("bigunion", ("comp", "set", ("call", nxf, (Gd, s_), ()), ((s_, S, ()),))))
-        if len(paths) != 1:
-            rep.unknown("R14.2", construct(f, "closure"), f"{len(paths)} return paths", loc(f))
-        else:
-            canon_eq("R14.2", f, "closure", paths[0].value, want,
+        if not paths:
+            rep.unknown("R14.2", construct(f, "closure"), "no return path", loc(f))
+        for k_, p_ in enumerate(paths):
+            # every way the routine can answer (a size threshold, a fast path ...) must be the definition
+            canon_eq("R14.2", f, "closure" if len(paths) == 1 else f"closure#path{k_}", p_.value, want,
                      f"{op}(S) must be S ∪ ⋃_{{s∈S}} {nxf}(directed component, s) (reflexive, over directed edges)")
     f = method("districts")
     paths = return_paths(ev.run(f, {}, self_term=G))
